@@ -17,7 +17,9 @@
 (*                    merkle_hasher.go, util.go, file_hash_store.go        *)
 (*                    (positions only) and common/merkle_tree.go           *)
 (*   monitors       : SubAt / PrefixRoot / LeafOf - what a claim MEANS,    *)
-(*                    independent of how a verifier computes               *)
+(*                    Siblings / RefSub / Desc - which proof belongs to it *)
+(*                    (read off the root term top-down, independent of how *)
+(*                    a verifier computes bottom-up)                       *)
 (*   tables         : Init picks a point of a finite input domain, the one *)
 (*                    action Decide computes the verdicts, prints the rows *)
 (*                    (P-TABLE) and records failed model-level checks in   *)
@@ -339,6 +341,33 @@ RECURSIVE LeafOf(_, _)
 LeafOf(lf, t) == t = lf \/ (IsNode(t) /\ (LeafOf(lf, t[2]) \/ LeafOf(lf, t[3])))
 MemberTrue(d, root) == LeafOf(Leaf(d), root)
 
+(* ... and which proof belongs to a true claim: the hashes next to the path, read off the root term.             *)
+RECURSIVE Siblings(_, _, _)
+Siblings(t, idx, size) == IF size = 1 THEN <<>>
+                          ELSE LET k == SplitK(size) IN
+                               IF idx < k THEN Append(Siblings(t[2], idx, k), t[3])
+                               ELSE Append(Siblings(t[3], idx - k, size - k), t[2])
+InclusionProofTrue(leaf, idx, size, root, proof) ==
+    InclusionTrue(leaf, idx, size, root) /\ proof = Siblings(root, idx, size)
+RECURSIVE RefSub(_, _, _, _)
+RefSub(t, n, m, b) == IF m = n THEN (IF b THEN <<>> ELSE <<t>>)
+                      ELSE LET k == SplitK(n) IN
+                           IF m <= k THEN Append(RefSub(t[2], k, m, b), t[3])
+                           ELSE Append(RefSub(t[3], n - k, m - k, FALSE), t[2])
+(* for equal sizes RFC 6962 defines no proof content: the claim is decided by the roots alone, and a verifier that *)
+(* ignores the proof argument there (as the reference implementation does) is not counted as accepting an altered  *)
+(* proof                                                                                                           *)
+ConsistencyProofTrue(m, n, oroot, nroot, proof) ==
+    ConsistencyTrue(m, n, oroot, nroot) /\ (m = n \/ proof = RefSub(nroot, n, m, TRUE))
+(* a leaf path is right when, walking down from the root, every element is the hash on the stated side and the     *)
+(* walk ends in the leaf hash of the value (a flag other than 0 reads as "right"; surplus bytes shorter than an    *)
+(* element are not part of the path)                                                                               *)
+RECURSIVE Desc(_, _, _, _)
+Desc(t, lf, items, i) == IF i = 0 THEN t = lf
+                         ELSE IsNode(t) /\ (IF items[i][1] = 0 THEN t[2] = items[i][2] /\ Desc(t[3], lf, items, i - 1)
+                                            ELSE t[3] = items[i][2] /\ Desc(t[2], lf, items, i - 1))
+LeafPathTrue(path, root) == Desc(root, Leaf(path.val), path.items, Len(path.items))
+
 RECURSIVE Subterms(_)
 Subterms(t) == IF IsNode(t) THEN {t} \cup Subterms(t[2]) \cup Subterms(t[3]) ELSE {t}
 
@@ -469,7 +498,8 @@ InclJudge(c, hp, dp) ==
     LET leaf  == IF c.isData = 1 THEN Leaf(dp[c.leaf]) ELSE hp[c.leaf]
         proof == [i \in 1..Len(c.proof) |-> hp[c.proof[i]]]
         acc   == VerifyLeafHashInclusion(leaf, c.idx, proof, hp[c.root], c.size)
-    IN [acc |-> acc, strict |-> acc, truth |-> InclusionTrue(leaf, c.idx, c.size, hp[c.root])]
+    IN [acc |-> acc, strict |-> acc, claim |-> InclusionTrue(leaf, c.idx, c.size, hp[c.root]),
+        truth |-> InclusionProofTrue(leaf, c.idx, c.size, hp[c.root], proof)]
 
 (* consistency claims: [v, m, n, oroot, nroot, proof] *)
 ConsMuts(c, hp, extra) ==
@@ -482,7 +512,8 @@ ConsJudge(c, hp) ==
     LET proof == [i \in 1..Len(c.proof) |-> hp[c.proof[i]]]
     IN [acc |-> VerifyConsistency(c.m, c.n, hp[c.oroot], hp[c.nroot], proof, TRUE),
         strict |-> VerifyConsistency(c.m, c.n, hp[c.oroot], hp[c.nroot], proof, FALSE),
-        truth |-> ConsistencyTrue(c.m, c.n, hp[c.oroot], hp[c.nroot])]
+        claim |-> ConsistencyTrue(c.m, c.n, hp[c.oroot], hp[c.nroot]),
+        truth |-> ConsistencyProofTrue(c.m, c.n, hp[c.oroot], hp[c.nroot], proof)]
 
 (* leaf-path claims: [v, val, flags, hashes, trail, root]; flags and hashes are parallel sequences *)
 ProveMuts(c, hp, dp, extra) ==
@@ -508,7 +539,7 @@ ProveMuts(c, hp, dp, extra) ==
 ProveJudge(c, hp, dp) ==
     LET path == [val |-> dp[c.val], items |-> [i \in 1..Len(c.flags) |-> <<c.flags[i], hp[c.hashes[i]]>>], trail |-> c.trail]
         r == MerkleProve(path, hp[c.root])
-    IN [acc |-> r.ok, strict |-> r.ok, truth |-> MemberTrue(dp[c.val], hp[c.root])]
+    IN [acc |-> r.ok, strict |-> r.ok, claim |-> MemberTrue(dp[c.val], hp[c.root]), truth |-> LeafPathTrue(path, hp[c.root])]
 
 C07Jobs == {j \in [k : {"incl", "incld", "cons", "prove"}, n : 1..N, m : 0..N] :
                /\ j.m <= j.n
@@ -556,10 +587,13 @@ C07Decide(kind, n, m) ==
         honest == {x \in r.judged : x.c.mut = "none"}
         checks == {
           <<"honest-accepted", \A x \in honest : x.j.acc /\ x.j.strict /\ x.j.truth>>,
+          <<"right-proof=>true-claim", \A x \in r.judged : x.j.truth => x.j.claim>>,
+          <<"complete-repaired", \A x \in r.judged : x.j.truth => x.j.strict>>,
           <<"sound-repaired", \A x \in r.judged : x.j.strict => x.j.truth>>,
           <<"sound-as-coded-except-shortcut", \A x \in r.judged : (x.j.acc /\ ~x.j.truth) => ShortcutDeviation(x.c, r.hp)>>,
           <<"as-coded=repaired-except-shortcut", \A x \in r.judged : (x.j.acc # x.j.strict) => ShortcutDeviation(x.c, r.hp)>> }
-        rows == {[c |-> x.c, acc |-> Bool2(x.j.acc), strict |-> Bool2(x.j.strict), truth |-> Bool2(x.j.truth)] : x \in r.judged}
+        rows == {[c |-> x.c, acc |-> Bool2(x.j.acc), strict |-> Bool2(x.j.strict), truth |-> Bool2(x.j.truth),
+                  claim |-> Bool2(x.j.claim)] : x \in r.judged}
     IN [bad |-> Failed(checks), rows |-> rows, pool |-> [kind |-> kind, n |-> n, m |-> m, hp |-> r.hp, dp |-> r.dp]]
 
 (* ---- C08 : served proofs ----------------------------------------------------------------------------- *)
